@@ -407,6 +407,22 @@ tj_serde!(
     BodyValue, HdrValue, CollHdr, AttrTup, HBodyTup
 );
 
+/// Option<Option<P>> as json: serde (and the generic TJ impl) render Some(None) and None alike, these do not.
+fn optopt_to<P: TJ>(v: &Option<Option<P>>) -> J {
+    match v {
+        None => J::Null,
+        Some(inner) => json!({ "some": inner.tj_to() }),
+    }
+}
+
+fn optopt_from<P: TJ>(j: &J) -> Result<Option<Option<P>>, String> {
+    if j.is_null() {
+        Ok(None)
+    } else {
+        Option::<P>::tj_from(&j["some"]).map(Some)
+    }
+}
+
 // the combination battery (generated, together with specs/FormDocCombos.tla, by checks/c16.py)
 include!("../form_combos.rs");
 
